@@ -6,7 +6,7 @@
 From Coq Require Import List NArith Bool.
 From GQ Require Import Lib.Key Lib.C14_Varint Lib.C14_BigEndian Lib.C14_ProtoWire Lib.C14_ProtoWireFacts
   Lib.C14_ProtoWireNF Lib.C14_RLP Generated.C14Schemas Model.C14 Proofs.C14
-  Lib.C14_Sites Generated.C14Sites Proofs.C14_Sites.
+  Lib.C14_Sites Generated.C14Sites Proofs.C14_Sites Proofs.C14_Tx Proofs.C14_Tx2 Proofs.C14_Tx3.
 Import ListNotations.
 Local Open Scope N_scope.
 
@@ -249,6 +249,61 @@ Theorem lockup_zero_delegate_dropped : forall a h e d, is_zero_bytes d = true ->
 Proof. exact Proofs.C14.lockup_zero_delegate_dropped. Qed.
 Print Assumptions lockup_zero_delegate_dropped.
 
+(* ---- Transaction.ProtoEncode / ProtoDecode, all three types, field by field (Model/C14.v section 3b) ---- *)
+(* c, d: the curve operations on Qi public keys (compression 65 -> 33 on encode, decompression 33 -> 65 on
+   decode), parameters of the model; tx_nf asks of them only that a key of the object compresses to 33 bytes
+   that decompress back to it *)
+
+(* generated obligation: the descriptor of ProtoTransaction the model was written against is the one the
+   compiled package has now (22 fields: number, kind, explicit presence) *)
+Theorem proto_transaction_descriptor : nth_error sc (N.to_nat id_block_ProtoTransaction) = Some txd.
+Proof. exact tx_desc. Qed.
+Print Assumptions proto_transaction_descriptor.
+
+(* the encoding of every well-formed transaction exists, is a normal form of the generated schema (so every
+   generic wire theorem applies to its bytes), and decodes to the same object (a nil TxOut lock reads back as 0) *)
+Theorem tx_encoding_roundtrip : forall c d t, tx_nf c d t ->
+  exists m, tx_encode c t = Some m /\ wf_msg sc id_block_ProtoTransaction m = true /\ tx_decode d m = DOk (tx_norm t).
+Proof. exact tx_encodes. Qed.
+Print Assumptions tx_encoding_roundtrip.
+
+(* at the level of bytes: ProtoDecode(Unmarshal(Marshal(ProtoEncode t))) = t *)
+Theorem tx_roundtrip : forall c d t, tx_nf c d t ->
+  exists m, tx_encode c t = Some m /\
+            (len (encode m) < u64 -> obj_decode id_block_ProtoTransaction (tx_decode d) (encode m) = DOk (tx_norm t)).
+Proof. exact tx_wire_roundtrip. Qed.
+Print Assumptions tx_roundtrip.
+
+(* identity stability: re-encoding what came back gives the same tree, hence the same bytes and the same hash
+   (Transaction.Hash is a hash of these bytes); holds for every transaction, well-formed or not *)
+Theorem tx_hash_stable : forall c t, tx_encode c (tx_norm t) = tx_encode c t.
+Proof. exact tx_reencode. Qed.
+Print Assumptions tx_hash_stable.
+
+(* two well-formed transactions with the same bytes are the same transaction: every field of every type is
+   committed by the encoding -- in particular ParentHash, MixHash and WorkNonce independently of each other,
+   the full width of a TxOut lock, the ETX sender / index / type *)
+Theorem tx_identity_injective : forall c d t1 t2 m1 m2, tx_nf c d t1 -> tx_nf c d t2 ->
+  tx_encode c t1 = Some m1 -> tx_encode c t2 = Some m2 -> len (encode m1) < u64 ->
+  encode m1 = encode m2 -> tx_norm t1 = tx_norm t2.
+Proof. exact Proofs.C14_Tx3.tx_identity_injective. Qed.
+Print Assumptions tx_identity_injective.
+
+(* the converse direction fails on the wire: "two distinct well-formed ProtoTransaction messages never decode to
+   the same transaction" is refuted (ETX index narrowed uint32 -> uint16 silently; replayed on the real code by
+   the harness mutation etx-index-width) *)
+Theorem tx_decode_injective_refuted :
+  exists m1 m2, m1 <> m2 /\ wf_msg sc id_block_ProtoTransaction m1 = true /\ wf_msg sc id_block_ProtoTransaction m2 = true /\
+                tx_decode (fun _ => None) m1 = tx_decode (fun _ => None) m2 /\ tx_decode (fun _ => None) m1 <> DErr.
+Proof. exact tx_decode_not_injective. Qed.
+Print Assumptions tx_decode_injective_refuted.
+
+(* access lists on their own *)
+Theorem access_list_roundtrip : forall al, Forall at_nf al ->
+  wf_msg sc id_block_ProtoAccessList (al_encode al) = true /\ al_decode (al_encode al) = al.
+Proof. intros al H. split; [exact (al_wf al H)|exact (al_roundtrip al H)]. Qed.
+Print Assumptions access_list_roundtrip.
+
 (* ---- non-vacuity ---- *)
 Example proto_roundtrip_nonvacuous :
   let m := [(1, FInt 2); (7, FBytes [1]); (15, FMsg [(1, FMsg [(1, FMsg [(1, FMsg [(1, FBytes (repeat 7 32))]); (2, FInt 65535)]); (2, FBytes (repeat 2 33))])]);
@@ -298,4 +353,27 @@ Proof. vm_compute. repeat split. Qed.
 (* the conflict test does fire on the shape of the blind change C14_2 (ExternalTx.Value := common.Big0) *)
 Example conflicts_nonvacuous :
   live_shared [etx_value_store] C14Sites.inplace_writers <> [].
+Proof. vm_compute. discriminate. Qed.
+
+(* a Quai transaction carrying only a ParentHash (no WorkNonce) and the same transaction without work fields:
+   both well-formed, different bytes (the shape of the blind change C14_4) *)
+Example tx_work_fields_nonvacuous :
+  let w0 := mkWork None None None in
+  let w1 := mkWork (Some (repeat 7 32)) None None in
+  let q w := mkQuai (Some (repeat 9 20)) 3 1000 21000 [1; 2] 9000 5 [mkAT (repeat 4 20) [repeat 6 32]] 0 0 0 w in
+  tx_nf (fun _ => None) (fun _ => None) (TQuai (q w0)) /\ tx_nf (fun _ => None) (fun _ => None) (TQuai (q w1)) /\
+  (exists m0 m1, tx_encode (fun _ => None) (TQuai (q w0)) = Some m0 /\ tx_encode (fun _ => None) (TQuai (q w1)) = Some m1 /\
+                 encode m0 <> encode m1 /\
+                 obj_decode id_block_ProtoTransaction (tx_decode (fun _ => None)) (encode m1) = DOk (TQuai (q w1))).
+Proof.
+  cbv zeta. split; [|split].
+  - repeat split; try (vm_compute; reflexivity); try (left; repeat split); repeat constructor.
+  - repeat split; try (vm_compute; reflexivity); try (left; repeat split); repeat constructor.
+  - eexists. eexists. split; [reflexivity|]. split; [reflexivity|]. split; [vm_compute; discriminate|vm_compute; reflexivity].
+Qed.
+
+(* a Qi output lock above 2^64 is committed in full width (the shape of the blind change C14_3) *)
+Example txout_wide_lock_nonvacuous :
+  encode (txout_encode (mkTxOut 3 (Some (repeat 9 20)) (Some 0))) <>
+  encode (txout_encode (mkTxOut 3 (Some (repeat 9 20)) (Some (2 ^ 64)))).
 Proof. vm_compute. discriminate. Qed.
